@@ -32,6 +32,8 @@ struct Base {
     payload: &'static [u8],
     mode: Mode,
     h2: bool,
+    /// the HTTP/2 authority carries an explicit port
+    h2port: bool,
 }
 
 const METHODS: &[&str] = &["GET", "PUT", "POST", "DELETE", "HEAD"];
@@ -151,7 +153,10 @@ fn bases(tier: Tier) -> Vec<Base> {
                                     continue;
                                 }
                             }
-                            v.push(Base { method, path, query, hdr, payload, mode, h2 });
+                            v.push(Base { method, path, query, hdr, payload, mode, h2, h2port: false });
+                            if h2 && pi == 0 {
+                                v.push(Base { method, path, query, hdr, payload, mode, h2, h2port: true });
+                            }
                         }
                     }
                 }
@@ -180,7 +185,7 @@ fn build(b: &Base) -> Built {
     let mut r = Req::new(b.method, &target);
     if b.h2 {
         r.version = http::Version::HTTP_2;
-        r.authority = Some(HOST.to_owned());
+        r.authority = Some(if b.h2port { format!("{HOST}:8014") } else { HOST.to_owned() });
     } else {
         r.headers.push(("host".into(), HOST.as_bytes().to_vec()));
     }
@@ -767,7 +772,7 @@ pub fn run(ctx: &Ctx) -> (Acc, Report) {
     }
     let rep = Report {
         level: "exploration",
-        rule: format!("{n_bases} honestly signed base requests (method x 17 paths x 15 query multisets (incl. names whose order changes when they are escaped) x 12 signed-header shapes (incl. runs of 3-5 blanks and tabs) x payload/mode x HTTP/1.1|HTTP/2), each with every applicable single-component mutation (each signed header value/name/removal, each query pair, each path byte, method, each body byte, each signature digit, each scope field, dates, provider secret, signed-header list) and 6 canonical-equivalent rewrites; oracle = reference verifier on the same bytes. Distinct by (base, mutation) id; every evaluated case is non-trivial (it reaches signature comparison or a parse refusal)."),
+        rule: format!("{n_bases} honestly signed base requests (method x 17 paths x 15 query multisets (incl. names whose order changes when they are escaped) x 12 signed-header shapes (incl. runs of 3-5 blanks and tabs) x payload/mode x HTTP/1.1 | HTTP/2 | HTTP/2 with a port in the authority), each with every applicable single-component mutation (each signed header value/name/removal, each query pair, each path byte, method, each body byte, each signature digit, each scope field, dates, provider secret, signed-header list) and 6 canonical-equivalent rewrites; oracle = reference verifier on the same bytes. Distinct by (base, mutation) id; every evaluated case is non-trivial (it reaches signature comparison or a parse refusal)."),
         exhaustive: true,
         extra: json!({"histories": hist_n, "history_requests_executed": hist_steps, "history_rule": "all sequences of length 1..3 over 8 requests of this property's scheme(s) (two identities x honest / signed with the other identity's secret x two scopes) plus every pair led by a request of another scheme, on one service instance, single-threaded, fixed order; each verdict = the reference verdict of that request alone", "base_requests": n_bases, "secret_length_cases": n_secret_lengths, "secret_length_rule": "provider secrets of 1, 2, 39-41, 59-65, 123-129, 255-257, 1000 and 5000 bytes: an honest request is accepted, and refused when the stored secret differs in its last character", "quick_tier_note": "quick keeps grid points where at most one of (path, query, header-shape, http2) is beyond its first two values; thorough is the full product"}),
         assumptions: vec![
